@@ -178,101 +178,128 @@ FROB_KIND = {('Fq2', (1,)): 'fq2_c1', ('Fq6', (1,)): 'fq6_c1', ('Fq6', (2,)): 'f
 
 
 def rule_frobenius(fx, rep):
-    n_rec = 0
-    n_idx = 0
-    tables_checked = {}
+    """frobenius_map(power) interpreted for every power 0 .. 2*period (+1): every component is first mapped by its own
+    Frobenius with the caller's power, then component i is multiplied by exactly gamma_i(power) = (u+1)^((q^power - 1)/d)
+    (value compared), whatever loops / locals / table indexing the body uses."""
+    import exp
+    from exp import Agg, Int, Ref, TOP, ConstField
+    spec = {
+        'Fq2': (2, lambda a: Agg([a('c0'), a('c1')]), {(1,): 'fq2_c1'}, False),
+        'Fq6': (6, lambda a: Agg([a('c0'), a('c1'), a('c2')]), {(1,): 'fq6_c1', (2,): 'fq6_c2'}, True),
+        'Fq12': (12, lambda a: Agg([Agg([a('c00'), a('c01'), a('c02')]), Agg([a('c10'), a('c11'), a('c12')])]), {(1, 0): 'fq12_c1', (1, 1): 'fq12_c1', (1, 2): 'fq12_c1'}, True),
+    }
+    audited = set()
+    n_fn = 0
     for ty, comp in TOWER:
         s = short(ty)
         path = fx.impl_method(FIELD, ty, 'frobenius_map')
-        b = fx.body(path) if path else None
-        if b is None:
+        if not path or fx.body(path) is None:
             rep.fail('SHAPE', '%s::frobenius_map' % s, 'impl not found')
             continue
         rep.fn(path)
-        r = Resolver(b)
-        o = Origin(b)
-        n = ncomp(fx, ty)
-        order = []
+        n_fn += 1
+        period, mk, kinds, recursive = spec[s]
         bad = []
-        for bi, t in sorted(real_calls(b), key=lambda x: x[0]):
-            rep.sites()
-            c = callee(t)
-            nm = c.get('name') if c else None
-            if c and c.get('trait') == FIELD and nm == 'frobenius_map':
-                i = comp_of(r.operand_referent(t['args'][0]), 1)
-                pw = strip(o.operand(t['args'][1]))
-                if i is None:
-                    bad.append('recursive frobenius_map at %s is not applied to a component of self' % t['span'])
-                elif pw != ('param', 2):
-                    bad.append('recursive frobenius_map on c%d at %s uses power %s instead of the caller\'s power' % (i, t['span'], term_str(pw)))
-                else:
-                    order.append(('rec', (i,), bi))
-                    n_rec += 1
-            elif c and c.get('trait') == FIELD and nm == 'mul_assign':
-                ref = r.operand_referent(t['args'][0])
-                comp_path = None
-                if ref and ref[0] in ('place', 'placeval') and ref[1]['l'] == 1 and ref[1]['p'] and ref[1]['p'][0][0] == 'deref':
-                    comp_path = tuple(e[1] for e in ref[1]['p'][1:] if e[0] == 'f')
-                kind = FROB_KIND.get((s, comp_path))
-                if kind is None:
-                    bad.append('multiplication at %s targets %s, which has no Frobenius coefficient' % (t['span'], comp_path))
-                    continue
-                # second operand: TABLE[power % N]
-                ref1 = r.operand_referent(t['args'][1])
-                if not (ref1 and ref1[0] == 'const' and 'v' in ref1[1]):
-                    bad.append('multiplier at %s is not an element of a constant table' % t['span'])
-                    continue
-                proj = [e for e in ref1[2] if e[0] != 'deref']
-                table = const_payload(ref1[1])
-                if not (isinstance(table, list) and len(proj) == 1 and proj[0][0] == 'i'):
-                    bad.append('multiplier at %s is not TABLE[index]' % t['span'])
-                    continue
-                idx = o.local(proj[0][1])
-                good_idx = (idx[0] == 'binop' and idx[1] == 'Rem' and strip(idx[2]) == ('param', 2) and idx[3][0] == 'const'
-                            and idx[3][1].get('v') == len(table))
-                n_idx += 1
-                rep.check(good_idx, 'SHAPE', '%s::frobenius_map:index:c%s' % (s, ''.join(map(str, comp_path))),
-                          'index is power %% %d (= table length)' % len(table),
-                          'table of length %d is indexed by %s' % (len(table), term_str(idx)), t['span'], construct=path)
-                key = (kind, C._freeze(table) if hasattr(C, '_freeze') else str(table))
-                nm_t = 'frobenius-table:%s' % kind
-                if kind not in tables_checked:
-                    tables_checked[kind] = C.check_frobenius_table(rep, nm_t, kind, table, t['span'])
-                    for nmc in C.named(fx, table):
-                        rep.const(nmc)
-                else:
-                    # another site using this kind must use the same values
-                    pass
-                order.append(('mul', comp_path, bi, table))
-            elif c is not None and t['target'] is not None:
-                bad.append('unexpected call %s at %s' % (c.get('res') or c['def'], t['span']))
-        recs = [x[1][0] for x in order if x[0] == 'rec']
-        muls = [x[1] for x in order if x[0] == 'mul']
-        want_rec = [] if s == 'Fq2' else list(range(n))
-        if sorted(recs) != want_rec:
-            bad.append('recursive Frobenius applied to components %s, expected %s exactly once each' % (sorted(recs), want_rec))
-        want_mul = sorted(k[1] for k in FROB_KIND if k[0] == s)
-        if sorted(muls) != want_mul:
-            bad.append('coefficient multiplications on %s, expected %s exactly once each' % (sorted(muls), want_mul))
-        # a component's own Frobenius must precede its coefficient multiplication
-        for x in order:
-            if x[0] == 'mul' and s != 'Fq2':
-                top = x[1][0]
-                rb = [y[2] for y in order if y[0] == 'rec' and y[1][0] == top]
-                if rb and not all(b.dominates(rbi, x[2]) for rbi in rb):
-                    bad.append('coefficient multiplication on c%s is not preceded by that component\'s own Frobenius' % (x[1],))
-        # same table for the three Fq12 sites
-        if s == 'Fq12':
-            tabs = [x[3] for x in order if x[0] == 'mul']
-            if any(tb != tabs[0] for tb in tabs[1:]):
-                bad.append('the three Fq12 coefficient multiplications use different tables')
-        rep.check(not bad, 'SHAPE', '%s::frobenius_map' % s, 'recursive calls %s with the caller\'s power, then coefficients on %s' % (want_rec, want_mul),
-                  '; '.join(bad), fx.fn(path)['span'], construct=path)
-    rep.floor('SHAPE', 'frobenius-recursive-calls', n_rec, 5)
-    rep.floor('SHAPE', 'frobenius-index-sites', n_idx, 6)
-    rep.floor('CONST', 'frobenius-tables', len(tables_checked), 4)
-    rep.check(sum(tables_checked.values()) >= 26, 'CONST', 'frobenius-coefficients-count', '%d coefficients audited' % sum(tables_checked.values()),
-              'only %d Frobenius coefficients found (26 expected)' % sum(tables_checked.values()))
+        for k in list(range(0, 2 * period + 2)):
+            def leafmap(v, f):
+                if isinstance(v, Agg):
+                    return Agg([leafmap(x, f) for x in v.items], v.kind)
+                return f(v)
+
+            def target(fr, op):
+                import stdmodel
+                v = fr.operand(op)
+                for _ in range(6):
+                    if isinstance(v, Ref):
+                        nxt = fr._project(fr.store.get(v.root, TOP), v.proj)
+                        if isinstance(nxt, Ref):
+                            v = nxt
+                            continue
+                    break
+                if isinstance(v, Ref):
+                    return v
+                rp = stdmodel.ref_of(fr, op)
+                return Ref(rp[0], rp[1]) if rp is not None else None
+
+            def tr(I, fr, t, c, pth):
+                nm = c.get('name')
+                if c.get('trait') == FIELD and nm == 'frobenius_map' and len(t['args']) == 2:
+                    pw = fr.operand(t['args'][1])
+                    r_ = target(fr, t['args'][0])
+                    if r_ is None:
+                        return False
+                    cur = fr._project(fr.store.get(r_.root, TOP), r_.proj)
+                    okp = isinstance(pw, Int) and pw.v == k
+                    new = leafmap(cur, lambda a_: ('frob', a_, k if okp else ('power', repr(pw))))
+                    fr.store[r_.root] = fr._update(fr.store.get(r_.root), list(r_.proj), new) if r_.proj else new
+                    return True
+                if c.get('trait') == FIELD and nm == 'mul_assign' and len(t['args']) == 2:
+                    r_ = target(fr, t['args'][0])
+                    m_ = fr.deref_operand(t['args'][1])
+                    for _ in range(4):
+                        if isinstance(m_, Ref):
+                            m_ = fr._project(fr.store.get(m_.root, TOP), m_.proj)
+                    if r_ is None:
+                        return False
+                    cur = fr._project(fr.store.get(r_.root, TOP), r_.proj)
+                    mv = C.dec_field_any(m_.v) if isinstance(m_, ConstField) else ('non-constant', repr(m_)[:60])
+                    new = ('mul', cur, mv)
+                    fr.store[r_.root] = fr._update(fr.store.get(r_.root), list(r_.proj), new) if r_.proj else new
+                    return True
+                return False
+            I = exp.Interp(fx, 'none', extra_transfer=tr)
+            try:
+                res = I.run(path, [('byref', mk(lambda n_: n_)), Int(k)])
+            except (exp.NotDerivable, exp.Budget) as e:
+                bad.append('power %d: not derivable: %s' % (k, e))
+                break
+            rep.sites(I.call_sites)
+            res = [r for r in res if not (isinstance(r[1], tuple) and r[1] and r[1][0] == 'diverges')]
+            if len(res) != 1:
+                bad.append('power %d: %d paths (a table access can go out of range?)' % (k, len(res)))
+                continue
+            out = res[0][2].get(1)
+
+            def want_leaf(pathidx, name):
+                base = ('frob', name, k) if recursive else name
+                kind = kinds.get(pathidx)
+                if kind:
+                    return ('mul', base, C.frobenius_expected(kind, k % period)), kind
+                return base, None
+
+            def walk(v, shape, idx):
+                if isinstance(shape, Agg):
+                    if not (isinstance(v, Agg) and len(v.items) == len(shape.items)):
+                        bad.append('power %d: component %s has the wrong shape' % (k, idx))
+                        return
+                    for i_, (a_, b_) in enumerate(zip(v.items, shape.items)):
+                        walk(a_, b_, idx + (i_,))
+                    return
+                want, kind = want_leaf(idx, shape)
+                alt = None
+                if not recursive and isinstance(v, tuple) and v and v[0] == 'frob':
+                    alt = v[1]        # Frobenius of the prime field is the identity
+                ok = (v == want) or (alt is not None and alt == want)
+                if not ok and kind and isinstance(v, tuple) and v and v[0] == 'mul' and v[1] == want[1]:
+                    bad.append('power %d: component c%s is multiplied by a value that is not (u+1)^((q^%d - 1)/d)' % (k, ''.join(map(str, idx)), k))
+                elif not ok:
+                    bad.append('power %d: component c%s becomes %s, expected %s' % (k, ''.join(map(str, idx)), _show(v), _show(want)))
+                elif kind:
+                    audited.add((kind, k % period))
+            walk(out, mk(lambda n_: n_), ())
+        rep.check(not bad, 'SHAPE', '%s::frobenius_map' % s, 'for powers 0..%d: components mapped by their own Frobenius with the caller\'s power, then multiplied by exactly gamma_i(power)' % (2 * period + 1),
+                  '; '.join(sorted(set(bad))[:3]), fx.fn(path)['span'], construct=path)
+    rep.floor('SHAPE', 'frobenius-maps', n_fn, 3)
+    rep.check(len(audited) >= 26, 'CONST', 'frobenius-coefficients-count', '%d coefficients audited through their use sites (2 + 6 + 6 + 12)' % len(audited),
+              'only %d Frobenius coefficients reached (26 expected)' % len(audited))
+
+
+def _show(v):
+    if isinstance(v, tuple) and v and v[0] == 'mul':
+        return '%s * <%s>' % (_show(v[1]), 'gamma' if not isinstance(v[2], tuple) else v[2][0])
+    if isinstance(v, tuple) and v and v[0] == 'frob':
+        return 'frob^%s(%s)' % (v[2], _show(v[1]))
+    return str(v)
 
 
 def rule_misc(fx, rep):
